@@ -816,6 +816,9 @@ class _Lowered(object):
         raise Inconclusive("substring test on a lower-cased symbolic string")
 
 
+FORMAT_OK = False
+
+
 class SymStr(str):
     """symbolic string: a str subclass (so isinstance checks and str-typed APIs accept it) whose payload is an
     unmistakable marker; every semantic operation is overridden to build z3 terms.  C-level functions that would
@@ -890,6 +893,8 @@ class SymStr(str):
         return 'SymStr(%s)' % self.e
 
     def __format__(self, spec):
+        if FORMAT_OK:
+            return self.MARK       # only error messages are formatted in this analysis (set by the property module)
         raise Inconclusive("a symbolic string reached str.format")
 
     def __mod__(self, o):
